@@ -98,6 +98,9 @@ func (p *FunctionBuilder) CreateFunction(m *bmodel.MethodEntry) (*gmodel.Functio
 	for i, arg := range additionalArgs {
 		additionalArgsVars[i] = p.createVar(arg, fmt.Sprintf("arg%d", i))
 	}
+	if sig, ok := m.Method.Type().(*types.Signature); ok && sig.Variadic() && 0 < len(additionalArgsVars) {
+		additionalArgsVars[len(additionalArgsVars)-1].Variadic = true
+	}
 	if m.Opts.Receiver != "" {
 		if srcVar.External {
 			return nil, logger.Errorf("%v: an external package type cannot be a receiver", p.fset.Position(m.Method.Pos()))
